@@ -588,6 +588,9 @@ def run(F, R, config=None):
     r6(F, R)
     r8(F, R)
     r9(F, R)
+    from . import c02
+    K.borrow_rule(R, lambda sub: c02.r10(F, sub), "C08-R10", "no logarithm of a product reduction in the transformation / math code: finite positive scales and "
+                  "eigenvalues give a finite log-determinant (C02-R10 analysis)", only_rules={"C02-R10"})
     R.assume("user-supplied Math implementations other than CpuMath are outside the analysed world")
 
 
